@@ -264,6 +264,9 @@ _prev_len = [None]
 def _b_len(eng, args, kwargs):
     if len(args) == 1 and isinstance(args[0], OptPairList):
         return eng.snum(zint(args[0].n), "int")
+    if len(args) == 1 and isinstance(args[0], SymSet) and not eng.spec_mode:  # the number of members = the length of the ghost enumeration (each member once)
+        used(eng, "len(set) is the number of its members")
+        return eng.snum(args[0].enumeration(eng)[1], "int")
     return (_prev_len[0] or models._b_len)(eng, args, kwargs)
 
 
